@@ -80,6 +80,10 @@ func fwdFrame(p, i int, v2, raw bool) (frame.Frame, ref.Frame) {
 		f.Compat = []byte{0, 0, 1, 2, 0x80, 0xFF}[(p*5+i)%6] // the original sender's compatibility flags travel with the frame
 	}
 	f.Payload = l.Encode(val, v2)
+	if raw && v2 && i%2 == 0 {
+		// a sender that does not cut trailing zeros (allowed): a frame forwarded as raw bytes keeps every one of them
+		f.Payload = l.EncodeFull(val, v2)
+	}
 	f.Checksum = f.ChecksumFor(l.CRCExtra)
 	var m message.Message = val
 	if raw {
@@ -675,7 +679,7 @@ func runC11(w *c11World) error {
 				}
 			} else {
 				it.frame = true
-				_, wantF := fwdFrame(it.p, it.i, f.V2, false)
+				_, wantF := fwdFrame(it.p, it.i, f.V2, w.programs[it.p][it.i].raw)
 				if w.programs[it.p][it.i].other != (f.V2 != w.v2) {
 					return fmt.Errorf("channel %d write %d: forwarded frame changed version (v2=%v)", c, k, f.V2)
 				}
@@ -722,14 +726,17 @@ func runC11(w *c11World) error {
 // At no time may two Write calls be in progress on one transport, and every completed write must be one whole frame.
 func TestC11SingleWriterPerTransport(t *testing.T) {
 	rec := evid.New(t, "C11", "2..3 slow custom transports (each Write stays in progress 50-400us) under a steady load of WriteMessageAll/WriteFrameAll while read errors are injected at generated moments so that channels are replaced on the same transport; oracle: no Write call ever begins while another one is in progress on the same transport (frames would interleave on a byte stream), every completed write is exactly one whole frame; non-trivial = at least one channel was replaced while writes were in flight; distinct by hash of the parameters")
-	rec.Require("channel-replaced-under-load")
+	rec.Require("channel-replaced-under-load", "stream-requests-written-under-load")
 	evid.Check(t, rec, evid.N(40, 200), func(t *rapid.T) {
 		drawNodeInit(t)
 		nch := rapid.IntRange(2, 3).Draw(t, "nch")
 		delay := time.Duration(rapid.IntRange(50, 400).Draw(t, "write_delay_us")) * time.Microsecond
 		flaps := rapid.IntRange(1, 5).Draw(t, "flaps")
 		gap := time.Duration(rapid.IntRange(200, 3000).Draw(t, "gap_us")) * time.Microsecond
-		desc := fmt.Sprintf("transports=%d writeDelay=%v readFaults=%d gap=%v", nch, delay, flaps, gap)
+		// with stream requests enabled, heartbeats of ArduPilot vehicles the node has not heard before keep arriving:
+		// what the node sends them on its own is one more source of writes for the same link
+		streamReq := rapid.Bool().Draw(t, "stream_requests_to_new_vehicles")
+		desc := fmt.Sprintf("transports=%d writeDelay=%v readFaults=%d gap=%v streamRequestsToNewVehicles=%v", nch, delay, flaps, gap, streamReq)
 		pipes := make([]*sim.Pipe, nch)
 		var endpoints []gomavlib.EndpointConf
 		for i := range pipes {
@@ -737,13 +744,36 @@ func TestC11SingleWriterPerTransport(t *testing.T) {
 			pipes[i].SetWriteDelay(delay)
 			endpoints = append(endpoints, gomavlib.EndpointCustom{ReadWriteCloser: pipes[i]})
 		}
-		n := &gomavlib.Node{Endpoints: endpoints, Dialect: ardupilotmega.Dialect, OutVersion: gomavlib.V2, OutSystemID: nodeSys, HeartbeatDisable: true}
+		n := &gomavlib.Node{Endpoints: endpoints, Dialect: ardupilotmega.Dialect, OutVersion: gomavlib.V2, OutSystemID: nodeSys, HeartbeatDisable: true,
+			StreamRequestEnable: streamReq}
 		if err := initNode(&n); err != nil {
 			t.Fatalf("BROKEN: %v", err)
 		}
 		r := sim.StartRecorder(n, sim.Pacing{Kind: "fast"}, nil)
 		stop := make(chan struct{})
 		var wg sync.WaitGroup
+		if streamReq {
+			wg.Add(1)
+			go func() {
+				defer wg.Done()
+				hl := lay(0)
+				for k := 0; ; k++ {
+					select {
+					case <-stop:
+						return
+					default:
+					}
+					f := ref.Frame{V2: true, Seq: byte(k), Sys: byte(1 + k%250), Comp: byte(1 + (k/250)%250), ID: 0}
+					if f.Sys == nodeSys {
+						f.Sys = 251
+					}
+					f.Payload = hl.Encode(&ardupilotmega.MessageHeartbeat{Type: 2, Autopilot: 3, MavlinkVersion: 3}, true)
+					f.Checksum = f.ChecksumFor(hl.CRCExtra)
+					pipes[k%nch].Feed(f.Bytes())
+					time.Sleep(150 * time.Microsecond)
+				}
+			}()
+		}
 		wg.Add(1)
 		go func() {
 			defer wg.Done()
@@ -794,6 +824,19 @@ func TestC11SingleWriterPerTransport(t *testing.T) {
 		var cls []string
 		if replaced > 0 {
 			cls = append(cls, "channel-replaced-under-load")
+		}
+		if streamReq {
+			nreq := 0
+			for _, p := range pipes {
+				for _, b := range p.Writes() {
+					if f, _, err := ref.Parse(b); err == nil && f.ID == 66 && f.Sys == nodeSys {
+						nreq++
+					}
+				}
+			}
+			if nreq >= 7 {
+				cls = append(cls, "stream-requests-written-under-load")
+			}
 		}
 		rec.Case(replaced > 0, evid.HashS(desc), cls...)
 		rec.Sample("flap", desc)
